@@ -32,7 +32,7 @@ func c22(x *ctx) {
 	r.Assumptions = []string{"visibility tag of class methods is not checked (Ruby: always public; the statement says 'in effect at the definition')"}
 	// the last three kinds return an instance of a user class (the class itself / a peer class in the same namespace)
 	kinds := []string{"plain", "private", "protected", "public", "def-self", "class-self", "endless", "multiline", "endless-multiline", "class-self-private", "class-self-protected",
-		"returns-own", "self-returns-own", "returns-peer", "returns-top-peer"}
+		"returns-own", "self-returns-own", "returns-peer", "returns-top-peer", "ivar-reader"}
 	nOldKinds := 11
 	maxLen := 3
 	if thorough {
@@ -144,6 +144,13 @@ func c22(x *ctx) {
 					line(ind + "      a")
 					line(ind + "    end")
 					line(ind + "  end")
+				case "ivar-reader":
+					// a method named like an instance variable of its class that it reads
+					line(ind + "  def " + name)
+					ms = append(ms, c22method{name: name, defRow: row, vis: vis, nparams: 0, kind: k})
+					line(ind + "    @" + name + " = 1.5")
+					line(ind + "    @" + name)
+					line(ind + "  end")
 				case "returns-own":
 					line(ind + "  def " + name + "(a)")
 					ms = append(ms, c22method{name: name, defRow: row, vis: vis, nparams: 1, kind: k})
@@ -195,7 +202,11 @@ func c22(x *ctx) {
 					if ms[i].nparams == 2 {
 						args = "1, 2"
 					}
-					line(ind + "    " + ms[i].name + "(" + args + ")")
+					if ms[i].nparams == 0 {
+						line(ind + "    " + ms[i].name)
+					} else {
+						line(ind + "    " + ms[i].name + "(" + args + ")")
+					}
 					ms[i].inBodyRow = row
 				}
 			}
@@ -232,6 +243,9 @@ func c22(x *ctx) {
 					// a private / protected class method: not called from outside (only its -i hint is checked)
 				case ms[i].static:
 					line(q + "Gizmo." + ms[i].name + "(" + args + ")")
+					ms[i].callRow = row
+				case ms[i].vis == "public" && ms[i].nparams == 0:
+					line("obj." + ms[i].name)
 					ms[i].callRow = row
 				case ms[i].vis == "public":
 					line("obj." + ms[i].name + "(" + args + ")")
